@@ -310,10 +310,71 @@ def op_feature(op, combo, kind, cls, msg):
     return f"op:{op.name}:{kind}:{cls}"
 
 
+def column_type_zoo(run):
+    """Source tables with every column type SQLAlchemy offers (generic, PostgreSQL and SQL Server specific): the Table
+    constructor may reject a type (TypeError / NotSupportedError); an accepted table must compile in a pipeline
+    that selects, filters, copies and re-roots the column."""
+    import sqlalchemy as sqa
+    from sqlalchemy.dialects import mssql as ms
+    from sqlalchemy.dialects import postgresql as pg
+
+    import pydiverse.transform as pdt
+
+    from .. import env as _env
+
+    zoo = {
+        "SmallInteger": sqa.SmallInteger(), "Integer": sqa.Integer(), "BigInteger": sqa.BigInteger(), "Float": sqa.Float(), "Float(24)": sqa.Float(24),
+        "Double": sqa.Double(), "REAL": sqa.REAL(), "Numeric": sqa.Numeric(), "Numeric(10,2)": sqa.Numeric(10, 2), "DECIMAL(38,10)": sqa.DECIMAL(38, 10),
+        "String": sqa.String(), "String(10)": sqa.String(10), "Text": sqa.Text(), "Unicode": sqa.Unicode(), "CHAR(3)": sqa.CHAR(3), "Boolean": sqa.Boolean(),
+        "Date": sqa.Date(), "DateTime": sqa.DateTime(), "DateTime(tz)": sqa.DateTime(timezone=True), "Time": sqa.Time(), "Interval": sqa.Interval(),
+        "LargeBinary": sqa.LargeBinary(), "Enum": sqa.Enum("a", "b", name="e"), "JSON": sqa.JSON(), "Uuid": sqa.Uuid(), "ARRAY(Integer)": sqa.ARRAY(sqa.Integer),
+        "ARRAY(String)": sqa.ARRAY(sqa.String), "ARRAY(Integer, 2)": sqa.ARRAY(sqa.Integer, dimensions=2), "ARRAY(Date)": sqa.ARRAY(sqa.Date),
+        "pg.JSONB": pg.JSONB(), "pg.TIMESTAMP": pg.TIMESTAMP(), "pg.DOUBLE_PRECISION": pg.DOUBLE_PRECISION(), "pg.SMALLINT": pg.SMALLINT(), "pg.INTERVAL": pg.INTERVAL(),
+        "ms.BIT": ms.BIT(), "ms.TINYINT": ms.TINYINT(), "ms.DATETIME2": ms.DATETIME2(), "ms.MONEY": ms.MONEY(), "ms.NVARCHAR": ms.NVARCHAR(20), "ms.REAL": ms.REAL(),
+        "NullType": sqa.types.NullType(),
+    }  # fmt: skip
+    C = pdt.C
+    for kind in DIALECTS:
+        eng = _env.sqlite_engine() if kind == "sqlite" else _env.offline_engine(kind)
+        for name, ty in zoo.items():
+            tb = sqa.Table("z", sqa.MetaData(), sqa.Column("k", sqa.BigInteger), sqa.Column("c", ty))
+            run.case(shape=("column_type", kind, name), nontrivial=True)
+            try:
+                t = pdt.Table(tb, pdt.SqlAlchemy(eng), name="z")
+            except Exception as e:  # noqa: BLE001
+                cls = type(e).__name__
+                if cls in ("TypeError", "NotSupportedError"):
+                    run.counters[f"column_type_rejected:{kind}"] += 1
+                else:
+                    run.finding(Finding("coltype:" + kind, kind, None, f"Table() with a {name} column raised {cls}: {str(e)[:160]}", exc=cls, extra={"feature": None}), None)
+                continue
+            pipes = {
+                "plain": lambda: t,
+                "filter+copy": lambda: t >> pdt.filter(t.k > 0) >> pdt.mutate(c2=t.c),
+                "subquery": lambda: t >> pdt.arrange(t.k) >> pdt.slice_head(3) >> pdt.alias() >> pdt.mutate(c2=C.c) >> pdt.filter(C.k > 1),
+                "group": lambda: t >> pdt.group_by(t.k) >> pdt.summarize(n=pdt.count()) >> pdt.alias() >> pdt.join(t >> pdt.alias("z2"), "k", "left"),
+                "union": lambda: t >> pdt.union(t >> pdt.filter(t.k > 3) >> pdt.alias("z3")),
+            }
+            for pn, f in pipes.items():
+                try:
+                    txt = f() >> pdt.build_query()
+                    probs = one_statement_problems(txt)
+                    for p in probs:
+                        run.finding(Finding("statement:" + kind, kind, None, f"{name} column, {pn}: {p}", extra={"feature": None}), None)
+                    run.counters[f"column_type_compiled:{kind}"] += 1
+                except Exception as e:  # noqa: BLE001
+                    cls = type(e).__name__
+                    if cls in PERMITTED:
+                        run.counters[f"refused:{kind}:{cls}"] += 1
+                    else:
+                        run.finding(Finding("coltype:" + kind, kind, None, f"{name} column, {pn} on {kind}: {cls}: {str(e)[:160]}", exc=cls, extra={"feature": None}), None)
+
+
 def execute(run, prop, shard):
     run.extra["skipped_dialects"] = skipped_dialects()
     if shard is None or shard[0] == 0:
         operator_sweep(run)
+        column_type_zoo(run)
     # (a) pipelines
     spec = pipeline.SPECS["C01"]
     n = 250 if run.tier == "quick" else 1200
